@@ -217,7 +217,15 @@ fn strat(tier: Tier) -> BoxedStrategy<SeqCase> {
             // unique, but only at the very start of what remains
             let cut = (pat[1].1 + pat[2].1) % 9;
             a.drain(..cut.min(a.len()));
-            let b = apply_raw_edits(&a, &es);
+            // ... and cutting a few items off the END leaves values whose last copy is gone: unique
+            // only at the very end of what remains (and again at the end of every shorter prefix)
+            let cut_end = (pat[3].1 + pat[4].1) % 5;
+            a.truncate(a.len().saturating_sub(cut_end));
+            let mut b = apply_raw_edits(&a, &es);
+            // half of these cases also differ in their very first item
+            if pat[5].1 % 2 == 0 && !b.is_empty() {
+                b[0] = 9_999_999;
+            }
             (a, b)
         }),
         // a block, the same values rearranged, more distinct values (second occurrences far away)
@@ -393,7 +401,7 @@ impl Prop for C19 {
     type Case = SeqCase;
     const ID: &'static str = "C19";
     fn rule() -> String {
-        "cases = (Myers|Patience, old, new) over an element type whose PartialEq counts calls; a stage of fixed inputs of 20 000-150 000 near-identical items and of 2^k-1 vs 2^k+1 distinct items (k = 8..13); a fifth of the random cases (and a fixed 8000-item input) are windows of larger buffers diffed through algorithms::diff with non-zero range starts; fixed unrelated inputs of 1500, 3000 and 5000 distinct items per side (D in the thousands); a third of the random cases are measured on buffers that held other content in an earlier diff and were edited in place; 1 random case in 10 uses 50-byte record items sharing a 40-byte head (so hashing/equality of long keys is exercised); families: near-identical (0-6 edits incl. block moves) up to 400 (quick) / 3000 (thorough) items over alphabets {2,4,26,10^3,10^5}, periodic with shift, reversed, truncated, unrelated, the shared small mixture, sequences in which every value occurs 1-3 times a few positions apart (interleaved copies), a block followed by the same values rearranged (second occurrences far away), and 1200-3200 (thorough: 9000-24000) items with 20-200 (400) scattered single-item edits on periodic or random content. Oracle: comparisons <= c*(N+M+1)*(D+1) with D = size of the reported script (Myers: the smaller of that and the shortest script by an independent LCS reference when N*M <= 10^6), c = 4 (Myers) / 6 (Patience); the counter aborts the run at 64x the largest possible bound so a quadratic or non-terminating change ends as a measured violation. The maximum measured ratio is reported under metrics_max. Non-trivial = N+M >= 200 and D <= (N+M)/20 (the near-linear claim); distinct = distinct serialized case.".into()
+        "cases = (Myers|Patience, old, new) over an element type whose PartialEq counts calls; a stage of fixed inputs of 20 000-150 000 near-identical items and of 2^k-1 vs 2^k+1 distinct items (k = 8..13); a fifth of the random cases (and a fixed 8000-item input) are windows of larger buffers diffed through algorithms::diff with non-zero range starts; fixed unrelated inputs of 1500, 3000 and 5000 distinct items per side (D in the thousands); a third of the random cases are measured on buffers that held other content in an earlier diff and were edited in place; 1 random case in 10 uses 50-byte record items sharing a 40-byte head (so hashing/equality of long keys is exercised); families: near-identical (0-6 edits incl. block moves) up to 400 (quick) / 3000 (thorough) items over alphabets {2,4,26,10^3,10^5}, periodic with shift, reversed, truncated, unrelated, the shared small mixture, sequences in which every value occurs 1-3 times a few positions apart (interleaved copies; a few items cut off the front and off the end, so that the locally unique item sits at an end; half of them with a changed first item), a block followed by the same values rearranged (second occurrences far away), and 1200-3200 (thorough: 9000-24000) items with 20-200 (400) scattered single-item edits on periodic or random content. Oracle: comparisons <= c*(N+M+1)*(D+1) with D = size of the reported script (Myers: the smaller of that and the shortest script by an independent LCS reference when N*M <= 10^6), c = 4 (Myers) / 6 (Patience); the counter aborts the run at 64x the largest possible bound so a quadratic or non-terminating change ends as a measured violation. The maximum measured ratio is reported under metrics_max. Non-trivial = N+M >= 200 and D <= (N+M)/20 (the near-linear claim); distinct = distinct serialized case.".into()
     }
     fn assumptions() -> Vec<String> {
         vec!["the constants are calibrated (measured maxima about 0.7 Myers / 1.6 Patience), not derived: the check decides 'within c x of the documented O((N+M)D)'".into()]
